@@ -102,8 +102,9 @@ func (it *interp) val(v ssa.Value, env map[ssa.Value]ival) ival {
 	case *ssa.Parameter, *ssa.FreeVar, *ssa.Global, *ssa.Function:
 		return ival{kind: 'p', h: v}
 	}
-	outsidef("value %s = %v not computed", v.Name(), v)
-	return ival{}
+	// a value computed outside the interpreted region: an opaque handle (any
+	// attempt to do arithmetic with it leaves the fragment)
+	return ival{kind: 'p', h: v}
 }
 
 // Run interprets fn from (block b, index i) with env pre-populated.
